@@ -152,6 +152,9 @@ def r18_4(ctx) -> None:
     from . import c14
     end = c14.r14_1(_Relabel(ctx, "R18.4"))
     c14.r14_2(_Relabel(ctx, "R18.4"), end)
+    # a cancellation arriving while enter_context is suspended in the manager's enter must not leave an exit
+    # registered for a context that was never entered (R14.4's table, shared)
+    c14.r14_4(_Relabel(ctx, "R18.4"))
 
 
 def r18_6(ctx) -> None:
